@@ -142,8 +142,29 @@ std::string propRebuild(const FmmCase& c0, const std::string& prop){
         return "";
     };
 
+    // user code may add to the results between executions (the accessors hand out mutable result rows): a particle-specific amount is
+    // added to every result value, so that no two particles hold the same value in any column (after a full execution the
+    // contribution count is the same for all particles, and a rebuild that permutes that column would be invisible)
+    long nbPerturb = 0;
+    auto perturb = [&](){
+        nbPerturb += 1;
+        tree->applyToAllLeaves([&](auto&& header, const long int* idx, auto&& /*data*/, auto&& rhs){
+            for(long i = 0 ; i < header.nbParticles ; ++i){
+                const size_t id = size_t(idx[i]);
+                gf::Val add;
+                for(int k = 0 ; k < gf::NEVAL ; ++k) add.v[k] = gf::splitmix(c0.salt * 31 + uint64_t(id) * 7 + uint64_t(k) + uint64_t(nbPerturb) * 1000003u) % gf::P;
+                add.cnt = long(gf::splitmix(c0.salt + uint64_t(id) * 13 + uint64_t(nbPerturb)) % 1000) + 1;
+                for(int k = 0 ; k < gf::NEVAL ; ++k) rhs[size_t(k)][i] = gf::add(uint64_t(rhs[size_t(k)][i]), add.v[k]);
+                rhs[gf::NEVAL][i] += add.cnt;
+                gf::addPlain(accumulated[id], add);
+            }
+        });
+    };
+
     // initial execution so that results exist before the first rebuild
     { std::string e = execute(); if(!e.empty()) return e; e = checkResults("after the first execution"); if(!e.empty()) return e; }
+    perturb();
+    { std::string e = checkResults("after adding to the results through the accessors"); if(!e.empty()) return "MODEL-ERROR " + e; }
 
     for(size_t cy = 0 ; cy < c.cycles.size() ; ++cy){
         // ---- edit positions in place
@@ -187,12 +208,14 @@ std::string propRebuild(const FmmCase& c0, const std::string& prop){
             for(size_t i = 0 ; i < c.pos.size() ; ++i){
                 for(long v = 0 ; v < NbData ; ++v) if(double(data[i][size_t(v)]) != in.rows[i][size_t(v)]) return "export after rebuild: data of particle " + std::to_string(i) + " value " + std::to_string(v) + " is " + std::to_string(double(data[i][size_t(v)])) + " expected " + std::to_string(in.rows[i][size_t(v)]);
                 for(int k = 0 ; k < gf::NEVAL ; ++k) if(rhs[i][size_t(k)] != accumulated[i].v[k]) return "export after rebuild: result of particle " + std::to_string(i) + " differs";
+                if(long(rhs[i][gf::NEVAL]) != accumulated[i].cnt) return "export after rebuild: contribution count of particle " + std::to_string(i) + " differs";
             }
         }
         // ---- one more full interaction on top of the preserved results
         e = execute(); if(!e.empty()) return e;
         e = checkResults("after rebuild + execution");
         if(!e.empty()) return e;
+        perturb();
     }
     st.cls("cycles=" + std::to_string(c.cycles.size()));
     st.cls("rebuilds", nbRebuilds); st.cls("executes", nbExecutes);
